@@ -1260,7 +1260,7 @@ CORPUS = [
 def run(ctx):
     r = ctx.rng
     ctx.extra["anchored_digest"] = _digest()
-    n = ctx.n(700, 14000)
+    n = ctx.n(500, 14000)
     if ANCHOR_DIGEST is not None and ctx.extra["anchored_digest"] != ANCHOR_DIGEST and not ctx.thorough:
         n = 1500            # the anchored functions were rewritten: explore harder (DESIGN 3.2)
         ctx.count("digest_changed")
